@@ -213,7 +213,9 @@ def write_corpus(outdir, seed, n):
               old_zone(2, b"EST5EDT,M3.2.0,M11.1.0", -12700000000), old_zone(3, b"EST5EDT,J60,J300", -86400 * 200),
               # data ending between 1568 and 1794: the generated table reaches past 1970 but ends before 2196, so the
               # last 400-year cycle before max() is reached through one cycle shift more than fits int64 seconds
-              old_zone(4, b"EST5EDT,M3.2.0,M11.1.0", -10535032704), old_zone(5, b"EST5EDT,M4.5.0,M10.5.0", -6000000000)]
+              old_zone(4, b"EST5EDT,M3.2.0,M11.1.0", -10535032704), old_zone(5, b"EST5EDT,M4.5.0,M10.5.0", -6000000000),
+              # data ending in year -201 (last_year_ = 200, not negative) and in year 1200
+              old_zone(6, b"EST5EDT,M3.2.0,M11.1.0", -68500000000), old_zone(7, b"EST5EDT,M3.2.0,M11.1.0", -24299000000)]
     items += [rand_zone(r, i) for i in range(n)]
     for name, data in items:
         p = os.path.join(outdir, name.replace("/", "_") + ".tzif")
@@ -238,6 +240,21 @@ def is_ancient_dst(data):
         end = o + c2[3] * 9 + c2[4] * 6 + c2[5] + c2[2] * 12 + c2[1] + c2[0]
         footer = data[end + 1:].split(b"\n")[0]
         return b"," in footer and last < -12686371200
+    except Exception:
+        return False
+
+
+def ancient_negative_last_year(data):
+    """ancient DST zone whose generated table ends in a negative year (no transitions, or data ending before year -402):
+    the sub-class (last_year_ < 399) in which `cs.year() - last_year_` or `shift * -400` overflows for civil years near INT64_MAX"""
+    import struct
+    try:
+        c = struct.unpack(">6i", data[20:44])
+        o = 44 + c[3] * 5 + c[4] * 6 + c[5] + c[2] * 8 + c[1] + c[0]
+        c2 = struct.unpack(">6i", data[o + 20:o + 44])
+        o += 44
+        last = struct.unpack(">q", data[o + (c2[3] - 1) * 8:o + c2[3] * 8])[0] if c2[3] else -2 ** 59
+        return is_ancient_dst(data) and last < -62200000000
     except Exception:
         return False
 
